@@ -729,3 +729,35 @@ def _format_rule_line_search():
 
 
 SEARCH['generator:_format_rule_default_json'] = _format_rule_line_search
+
+
+@_search('policy:Rules.load')
+def _rules_load_search():
+    """a fresh Rules object holding one check per name of the mapping the text denotes (none dropped, none added), with the
+    given default rule; ValueError for text that is not a mapping"""
+    import json
+    from oslo_policy import policy, _checks
+    vals = ['role:a', '', '@', '!', 'not (', [['role:a'], ['role:b']], [], None, False, True, 0, 1.5, {}, {'role': 'admin'}, [None], [0]]
+    maps = [{}, {'a': 'role:x'}] + [{'p:x': v, 'default': ''} for v in vals] + [{'a': '@', 'b': vals[i], 'c:d': vals[-i - 1]} for i in range(len(vals))]
+    for m in maps:
+        for dflt in (None, 'default', _checks.TrueCheck()):
+            for text in (json.dumps(m), __import__('yaml').safe_dump(m)):
+                try:
+                    r = policy.Rules.load(text, dflt)
+                except Exception as e:      # noqa
+                    return ({'text': text}, 'Rules.load(%r) raised %s for text that denotes a mapping' % (text, type(e).__name__))
+                if type(r) is not policy.Rules or r.default_rule is not dflt:
+                    return ({'text': text}, 'Rules.load(%r, %r) returned %r with default rule %r' % (text, dflt, type(r).__name__, r.default_rule))
+                if set(dict.keys(r)) != set(m):
+                    return ({'text': text}, 'Rules.load(%r) holds the names %r, the text defines %r' % (text, sorted(dict.keys(r)), sorted(m)))
+                for k in m:
+                    if not isinstance(dict.__getitem__(r, k), _checks.BaseCheck):
+                        return ({'text': text}, 'Rules.load(%r)[%r] is %r, not a check' % (text, k, dict.__getitem__(r, k)))
+    for text in ('[1, 2]', '"just a string"', '{unbalanced', 'a: b: c'):
+        try:
+            policy.Rules.load(text)
+        except ValueError:
+            continue
+        except Exception:       # noqa
+            continue            # a top-level value that is no mapping is outside the contract (AttributeError in the real code)
+    return None
